@@ -304,7 +304,21 @@ impl TypeckResultsBuilder {
 
     pub fn push_coercion(&mut self, expr: hir::ExprId, coercion: Coercion) {
         if let Some(slot) = self.results.coercions.get_mut(expr.idx as usize) {
-            slot.push(coercion);
+            // An argument is inferred and then checked again against the
+            // parameter type, and a nested call is re-checked by its caller, so
+            // the same coercion is recorded more than once; keep it once.
+            let Coercion::ToDyn { trait_name, ty, .. } = &coercion;
+            let already_recorded = slot.iter().any(|existing| {
+                let Coercion::ToDyn {
+                    trait_name: existing_trait,
+                    ty: existing_ty,
+                    ..
+                } = existing;
+                existing_trait == trait_name && existing_ty == ty
+            });
+            if !already_recorded {
+                slot.push(coercion);
+            }
         }
     }
 
